@@ -414,6 +414,20 @@ pub fn run(tier: &str, _seed: u64) -> Sink {
     let items = load_corpus();
     let _ = thorough;
     let g = grid(true); // the closed set is the same in both tiers (it takes seconds)
+    // width sweep: every one-line catalogue program at every column width 1..=130
+    let sweep_items: Vec<usize> = items.iter().enumerate().filter(|(_, it)| it.rel.contains(".lines#")).map(|(i, _)| i).collect();
+    let sweep_n = sweep_items.len() * 130;
+    let sweep = par_map(sweep_n, threads(), |k| {
+        let it = &items[sweep_items[k / 130]];
+        let w = k % 130 + 1;
+        let mut c = Config::default();
+        c.syntax = it.syntax;
+        c.column_width = w;
+        let mut sink = Sink::default();
+        let id = format!("corpus:{}@sweep-w{}", it.rel, w);
+        let (ok, ms) = check_case(&id, &it.text, c, &mut sink);
+        (sink, ok, ms)
+    });
     let n = items.len() * g.len();
     let parts = par_map(n, threads(), |k| {
         let it = &items[k / g.len()];
@@ -429,7 +443,7 @@ pub fn run(tier: &str, _seed: u64) -> Sink {
     let mut formatted = 0usize;
     let mut total_ms: u128 = 0;
     let mut max_ms: u128 = 0;
-    for (s, ok, ms) in parts {
+    for (s, ok, ms) in parts.into_iter().chain(sweep.into_iter()) {
         sink.merge(s);
         if ok {
             formatted += 1;
@@ -437,7 +451,7 @@ pub fn run(tier: &str, _seed: u64) -> Sink {
         total_ms += ms;
         max_ms = max_ms.max(ms);
     }
-    sink.s(json!({"pipeline": {"files": items.len(), "configs": g.len(), "cases": n, "formatted": formatted, "oracle_evaluations": formatted,
+    sink.s(json!({"pipeline": {"files": items.len(), "configs": g.len(), "cases": n + sweep_n, "width_sweep_cases": sweep_n, "formatted": formatted, "oracle_evaluations": formatted,
         "cpu_ms": total_ms as u64, "max_case_ms": max_ms as u64, "configs_used": g.iter().map(|x| x.0.clone()).collect::<Vec<_>>()}}));
     sink
 }
